@@ -2052,6 +2052,10 @@ VmResult vm_call_function(VmState *vm, uint32_t fn_idx, NanoValue *args, uint16_
                                      &ext_result, &vm->heap,
                                      ext_err, sizeof(ext_err));
             }
+            /* The arguments were popped off the operand stack for the call: their references end here */
+            for (int ai = 0; ai < trap.data.extern_call.argc; ai++) {
+                vm_release(&vm->heap, trap.data.extern_call.args[ai]);
+            }
             if (!ffi_ok) {
 #ifdef NANOLANG_VERIF
                 nlv_vend(vm, "ffi", (int)VM_ERR_NOT_IMPLEMENTED);
